@@ -49,7 +49,24 @@ def build_searchers(root, repo, names=None):
     return p.returncode == 0, p.stdout + p.stderr
 
 
+def _unicode_search(root, repo, args, timeout=900):
+    from . import gen_unicode
+    d = gen_unicode.generate_search(root, repo)
+    env = dict(os.environ, CARGO_NET_OFFLINE="true", CARGO_TARGET_DIR=os.path.join(root, "out", "target-replay"))
+    p = subprocess.run(["cargo", "run", "--offline", "--release", "-q", "--manifest-path", os.path.join(d, "Cargo.toml"), "--"] + args,
+                       env=env, capture_output=True, text=True, timeout=timeout)
+    return p
+
+
 def run_searcher(root, repo, name, pid, obligations, seed):
+    if name == "unicode":
+        hs = [o.split("::")[-1] for o in obligations]
+        p = _unicode_search(root, repo, hs)
+        w = None
+        for line in p.stdout.split("\n"):
+            if line.startswith("WITNESS "):
+                w = json.loads(line[8:])
+        return w, p.stdout[-2000:] + p.stderr[-2000:]
     ok, log = build_searchers(root, repo, [name])
     if not ok:
         return None, "searcher build failed:\n" + log
@@ -81,6 +98,10 @@ def replay(root, repo, pid, path):
             print(fo.get("verifier_output", ""))
         return 1
     name = doc.get("searcher")
+    if name == "unicode":
+        p = _unicode_search(root, repo, ["--replay", w["code_point"]])
+        print(p.stdout + p.stderr)
+        return 1 if p.returncode != 0 else 0
     ok, log = build_searchers(root, repo, [name])
     if not ok:
         print(log)
